@@ -200,22 +200,28 @@ def run(tier, chk):
 
 
 def negative_control(chk):
-    """corrupt one observation / one witness and require T_C14 to reject exactly that record"""
-    sys.path.insert(0, core.REPO)
+    """hand-written observation records (independent of the implementation under test): corrupt one value, one
+    witness, one range and one value inside a sweep, and require T_C14 to reject exactly those"""
     a = {'s': 0, 'n': 8, 'v': [200]}
     b = {'s': 0, 'n': 16, 'v': [100, 1]}
-    cases = [{'op': '+', 'a': a, 'b': b}, {'op': '+', 'a': a, 'b': b}, {'op': '%', 'a': a, 'b': b},
-             {'op': '*', 'a': a, 'b': {'s': 1, 'n': 8, 'v': []}, 'mode': 'ex8'},
-             {'op': '*', 'a': a, 'b': {'s': 1, 'n': 8, 'v': []}, 'mode': 'ex8'}]
-    recs = observe(cases)
-    recs[1]['obs']['v'][0] ^= 1          # wrong value
-    recs[2]['wit'][0] ^= 1               # wrong witness -> "witness", not a verdict about miasmX
-    recs[4]['obs'][17][3] += 1           # wrong value inside a sweep
+
+    def fixed(s_, n, val):
+        return {'t': 'fixed', 's': s_, 'n': n, 'v': limbs(val, n + 16)}
+    sweep_ok = [[0, 1, 8, ((200 * (y if y < 128 else y - 256)) + 128) % 256 - 128] for y in range(256)]
+    sweep_bad = [list(x) for x in sweep_ok]
+    sweep_bad[17][3] += 1
+    recs = [{'id': 0, 'shape': 'one', 'op': '+', 'a': a, 'b': b, 'obs': fixed(0, 16, 556), 'wit': []},
+            {'id': 1, 'shape': 'one', 'op': '+', 'a': a, 'b': b, 'obs': fixed(0, 16, 557), 'wit': []},
+            {'id': 2, 'shape': 'one', 'op': '%', 'a': a, 'b': b, 'obs': fixed(0, 16, 200), 'wit': limbs(1, 32)},
+            {'id': 3, 'shape': 'one', 'op': '%', 'a': a, 'b': b, 'obs': fixed(0, 16, 200), 'wit': limbs(0, 32)},
+            {'id': 4, 'shape': 'one', 'op': '+', 'a': a, 'b': b, 'obs': {'t': 'fixed', 's': 0, 'n': 16, 'v': limbs(556 + 65536, 32)}, 'wit': []},
+            {'id': 5, 'shape': 'sweep', 'op': '*', 'a': a, 'b': {'s': 1, 'n': 8}, 'swap': False, 'ys': list(range(256)), 'obs': sweep_ok},
+            {'id': 6, 'shape': 'sweep', 'op': '*', 'a': a, 'b': {'s': 1, 'n': 8}, 'swap': False, 'ys': list(range(256)), 'obs': sweep_bad}]
     verdicts, st = core.judge('T_C14', recs, shards=1)
     got = sorted((v['id'], v['v'][0]['clause']) for v in verdicts)
-    want = [(1, 'C14.value'), (2, 'C14.witness'), (4, 'C14.value')]
+    want = [(1, 'C14.value'), (2, 'C14.witness'), (4, 'C14.range'), (6, 'C14.value')]
     ok = got == want
-    chk.cov['negative_controls'].append({'name': 'corrupted observation / witness rejected, intact twins accepted', 'ok': ok, 'got': got})
+    chk.cov['negative_controls'].append({'name': 'corrupted value / witness / range / sweep entry rejected, intact twins accepted', 'ok': ok, 'got': got})
     if not ok:
         raise core.MachineryError('C14 negative control failed: %r' % (got,))
 
